@@ -36,6 +36,7 @@ func cmdRun(args []string) {
 	verbose := fs.Bool("v", false, "print paths")
 	smtlog := fs.String("smtlog", "", "write solver input to file")
 	ua := fs.Bool("unwind-assume", false, "prune instead of fail at unwind limit")
+	merge := fs.String("merge", "", "comma separated functions to summarise")
 	fs.Parse(args)
 	ld, err := loadProgram([]string{*pkg, zlintMod + "/zzverif"}, nil)
 	if err != nil {
@@ -46,6 +47,11 @@ func cmdRun(args []string) {
 	p := ld.Pkg(*pkg)
 	cfg := defaultConfig()
 	cfg.Solver, cfg.Unwind, cfg.ListBound, cfg.ByteBound, cfg.UnwindAssume = *solver, *unwind, *list, *bytesB, *ua
+	for _, m := range strings.Split(*merge, ",") {
+		if m != "" {
+			cfg.Merge[m] = true
+		}
+	}
 	s := NewSolver(cfg.Solver, cfg.TimeoutMs, *smtlog)
 	defer s.Close()
 	e := NewExec(ld.Prog, cfg)
